@@ -45,11 +45,11 @@ class C03(Check):
                    'events after a boundary received on_error / on_completed are invisible to the subscriber (RxPY AutoDetachObserver) and are not judged']
     ANCHORS = ['rxsci/data/roll.py', 'rxsci/data/split.py', 'rxsci/data/time_split.py', 'rxsci/operators/group_by.py', 'rxsci/operators/tee_map.py',
                'rxsci/operators/multiplex.py', 'rxsci/state/with_store.py', 'rxsci/mux/muxobservable.py', 'rxsci/mux/muxconnectable.py']
-    REQUIRED_TAGS = ['depth>=3', 'empty-source', 'single-item', 'scale'] + PRELUDE_TAGS
+    REQUIRED_TAGS = ['depth>=3', 'empty-source', 'single-item', 'scale', 'several-streams-on-one-store'] + PRELUDE_TAGS
     REQUIRED_OBSERVED = ['boundary:' + k for k in KINDS] + ['events:create', 'events:next', 'events:completed', 'events:on_completed']
 
     def generate(self, rng, tier, shard, nshards):
-        return with_prelude(self._generate(rng, tier, shard, nshards), rng, size=lambda c: len(c['items']))
+        return with_prelude(self._generate(rng, tier, shard, nshards), rng, size=lambda c: len(c['items']) if 'items' in c else 10 ** 9)
 
     def _generate(self, rng, tier, shard, nshards):
         n = 3500 if tier == 'quick' else 10 ** 7
@@ -62,6 +62,18 @@ class C03(Check):
                 ctx = gen_ctx(rng, o)
                 prog = [ctx] if rng.random() < 0.5 else [['group_by', 'mod:%d' % rng.randint(2, 4), [ctx]]]
                 yield {'prog': prog, 'items': gen.gen_items(rng, n=rng.choice([0, 1, 5, 20, 40]), sorted_=(ctx[0] == 'time_split'))}
+                continue
+            if k % 40 == 20:
+                # several pushed streams sharing ONE store (with_store(sources=[...])), each through its own pipeline; one of
+                # them ends first and somebody tries to subscribe it again while the others are still live
+                m = rng.randint(2, 3)
+                streams = []
+                for _ in range(m):
+                    o = gen.GenOpts(max_depth=rng.choice([0, 1, 2]), ctx_weight=6, tee_weight=0, allow_progress=False, no_streaming_mutation=True,
+                                    exclude_ops=('tee_map',))
+                    pr, _ = gen.gen_pipeline(rng, 'i', rng.randint(1, 3), o)
+                    streams.append({'prog': pr, 'items': gen.gen_items(rng, n=rng.choice([0, 1, 3, 8, 15]), hi=12, sorted_=True)})
+                yield {'multi': streams, 'oseed': rng.randrange(1 << 30), 'resubscribe': rng.randrange(m)}
                 continue
             if k % 150 == 75:
                 # scale: windows of 257-400 items, 300-1000 groups, take/batch/lag 257+ on ~700 items
@@ -77,8 +89,76 @@ class C03(Check):
             items = gen.gen_items(rng, n=ln, hi=rng.choice([3, 12, 30]), sorted_=rng.random() < 0.3)
             yield {'prog': prog, 'items': items}
 
+    def _eval_multi(self, case, out):
+        import random
+        import rx
+        from ..common import Snap
+        out.tags.append('several-streams-on-one-store')
+        streams = case['multi']
+        if sum(1 for st in streams if any(x in progs.CONTEXTS for x in progs.op_names(st['prog']))) >= 1:
+            out.nontrivial = True
+        srcs = [progs.Controlled() for _ in streams]
+        store = rs.state.StoreManager(store_factory=rs.state.MemoryStore)
+        snaps = [Snap() for _ in streams]
+        r = random.Random(case['oseed'])
+        with Monitor() as mon:
+            try:
+                muxed = rs.state.with_store(store, sources=[sc.observable.pipe(rs.ops.mux_observable()) for sc in srcs])
+                outs = []
+                for mo, st in zip(muxed, streams):
+                    ops_ = progs.build(st['prog'])
+                    outs.append(mo.pipe(*ops_) if ops_ else mo)
+                for o_, sn in zip(outs, snaps):
+                    o_.subscribe(on_next=sn.on_next, on_error=sn.on_error, on_completed=sn.on_completed)
+                pending = [list(st['items']) for st in streams]
+                first_done = case['resubscribe']
+                # the chosen stream is fed and completed first, then re-subscribed while the others are live
+                order = [first_done] * len(pending[first_done])
+                rest = [j for j, p in enumerate(pending) if j != first_done for _ in p]
+                r.shuffle(rest)
+                half = len(rest) // 2
+                for j in rest[:half]:
+                    srcs[j].push(pending[j].pop(0))
+                for j in order:
+                    srcs[j].push(pending[j].pop(0))
+                srcs[first_done].complete()
+                try:
+                    outs[first_done].subscribe(on_next=lambda i: None, on_error=lambda e: None, on_completed=lambda: None)
+                    out.observed['second_subscriptions_accepted'] += 1
+                except Exception:       # noqa: BLE001 - refusing a second subscription is fine
+                    out.observed['second_subscriptions_refused'] += 1
+                for j in rest[half:]:
+                    srcs[j].push(pending[j].pop(0))
+                for j, sc in enumerate(srcs):
+                    if j != first_done:
+                        sc.complete()
+            except Exception as e:      # noqa: BLE001
+                out.fail('several-streams-on-one-store-raised', error=repr(e))
+        for b in mon.boundaries:
+            out.observed['boundaries_monitored'] += 1
+            for ev, c in b.counts.items():
+                out.observed['events:' + ev] += c
+        if mon.violations:
+            v = mon.violations[0]
+            out.fail('protocol:' + v['kind'], boundary=v['boundary'], key=v['key'], extra=v['extra'], event_index=v['event_index'],
+                     n_violations=len(mon.violations), streams=len(streams))
+            return out
+        for j, sn in enumerate(snaps):
+            if sn.err is not None:
+                try:
+                    model.run(streams[j]['prog'], streams[j]['items'])
+                except model.Discard:
+                    continue
+                except Exception:       # noqa: BLE001
+                    continue
+                out.fail('stream-error-in-a-fault-free-program', error=repr(sn.err), stream=j)
+                return out
+        return out
+
     def evaluate(self, case):
         out = Outcome()
+        if case.get('multi'):
+            return self._eval_multi(case, out)
         prog, items = case['prog'], case['items']
         names = progs.op_names(prog)
         nctx = sum(1 for x in names if x in ('group_by', 'roll', 'split', 'time_split'))
@@ -140,6 +220,13 @@ class C03(Check):
 
     def shrink(self, case):
         yield from shrink_prelude(case)
+        if case.get('multi'):
+            for j, st in enumerate(case['multi']):
+                for k in range(len(st['items'])):
+                    ms = [dict(x) for x in case['multi']]
+                    ms[j]['items'] = st['items'][:k] + st['items'][k + 1:]
+                    yield dict(case, multi=ms)
+            return
         from .c11 import shrink_prog
         items = case['items']
         for k in range(len(items)):
